@@ -22,7 +22,7 @@ FSet(names) == {FByName(names[k]) : k \in DOMAIN names}
 FixedOf(raw) == LET env == MapDenoteF(d, inp, FSet(Ev.F)) IN Resolve(d, env, raw)
 TBegin  == IsEvent("begin")
            /\ Ev.new_inputs = <<>>                      \* a run with other inputs on a kept folder is never accepted (below)
-           /\ (Len(Ev.fixedraw) > 0 => ValidFixed(d, MapDenoteF(d, inp, FSet(Ev.F)), Ev.fixedraw))
+           /\ (Len(Ev.fixedraw) > 0 => ValidFixedF(d, MapDenoteF(d, inp, FSet(Ev.F)), FSet(Ev.F), Ev.fixedraw))
            /\ Begin([F |-> FSet(Ev.F), cleanup |-> Ev.cleanup,
                      fixed |-> IF Len(Ev.fixedraw) > 0 THEN FixedOf(Ev.fixedraw) ELSE Ev.fixed,
                      cache |-> Ev.cache,
@@ -58,7 +58,7 @@ TRaise  == IsEvent("raise") /\ Raise /\ UNCHANGED exc
 (* a request the specification calls invalid must be rejected before anything happens *)
 TReject == IsEvent("reject") /\ phase = "idle"
            /\ (~ValidMapRequestF(d, inp, FSet(Ev.F))
-               \/ (Len(Ev.fixedraw) > 0 /\ ~ValidFixed(d, MapDenoteF(d, inp, FSet(Ev.F)), Ev.fixedraw)))
+               \/ (Len(Ev.fixedraw) > 0 /\ ~ValidFixedF(d, MapDenoteF(d, inp, FSet(Ev.F)), FSet(Ev.F), Ev.fixedraw)))
            /\ UNCHANGED mvars /\ UNCHANGED exc
 
 (* C04: what load_outputs / RunInfo.load return afterwards, in the same or in a fresh process, any number of times:  *)
